@@ -34,6 +34,7 @@ def dirNamesOf (s : Store) (d : Ino) : Option (List Bytes) :=
   if names.isEmpty then none else some names
 
 def writeData (d : Bytes) (pos : Nat) (b : Bytes) : Bytes :=
+  if b.isEmpty then d else
   let d1 := if pos > d.length then d ++ List.replicate (pos - d.length) 0 else d
   d1.take pos ++ b ++ d1.drop (pos + b.length)
 
@@ -48,7 +49,7 @@ def fileStep (s : Store) (v : View) (h : Handle) : FOp → Store × View × Hand
         if h.om &&& omRead == 0 then (s, v, h, .err .EBADF) else
         let avail := if h.pos.toNat ≥ d.length then 0 else d.length - h.pos.toNat
         let k := min n avail
-        if k == 0 then (s, v, h, .errN 0 [] .eof)
+        if k == 0 && n != 0 then (s, v, h, .errN 0 [] .eof)
         else (s, v, { h with pos := h.pos + k }, .ok (.num k ((d.drop h.pos.toNat).take k)))
       | _ => (s, v, h, .err .EISDIR)
   | .readAt n off =>
@@ -56,10 +57,11 @@ def fileStep (s : Store) (v : View) (h : Handle) : FOp → Store × View × Hand
     match h.nd with
     | none => (s, v, h, .err .closed)
     | some i =>
+      if off < 0 then (s, v, h, .err .negOffset) else
       match s.get i with
       | some (.file _ d _ _) =>
-        if off < 0 then (s, v, h, .err .negOffset) else
         if h.om &&& omRead == 0 then (s, v, h, .err .EBADF) else
+        if n == 0 then (s, v, h, .ok (.num 0 [])) else
         if off.toNat > d.length then (s, v, h, .errN 0 [] .eof) else
         let k := min n (d.length - off.toNat)
         let bs := (d.drop off.toNat).take k
@@ -73,6 +75,7 @@ def fileStep (s : Store) (v : View) (h : Handle) : FOp → Store × View × Hand
       match s.get i with
       | some (.file m d nl id) =>
         if h.om &&& omWrite == 0 then (s, v, h, .err .EBADF) else
+        if b.isEmpty then (s, v, h, .ok (.num 0 [])) else
         let pos := if h.om &&& omAppend != 0 then d.length else h.pos.toNat
         let d' := writeData d pos b
         (s.set i (.file { m with mtime := none } d' nl id), v, { h with pos := (pos + b.length : Nat) }, .ok (.num b.length []))
@@ -86,6 +89,7 @@ def fileStep (s : Store) (v : View) (h : Handle) : FOp → Store × View × Hand
       match s.get i with
       | some (.file m d nl id) =>
         if h.om &&& omWrite == 0 then (s, v, h, .err .EBADF) else
+        if b.isEmpty then (s, v, h, .ok (.num 0 [])) else
         (s.set i (.file { m with mtime := none } (writeData d off.toNat b) nl id), v, h, .ok (.num b.length []))
       | _ => (s, v, h, .err .EBADF)
   | .seek off whence =>
@@ -108,10 +112,10 @@ def fileStep (s : Store) (v : View) (h : Handle) : FOp → Store × View × Hand
       | _ => (s, v, h, .ok (.num 0 []))
   | .truncate size =>
     if h.name.isEmpty then (s, v, h, .err .invalid) else
-    if size < 0 then (s, v, h, .err .EINVAL) else
     match h.nd with
     | none => (s, v, h, .err .closed)
     | some i =>
+      if size < 0 then (s, v, h, .err .EINVAL) else
       match s.get i with
       | some (.file m d nl id) =>
         if h.om &&& omWrite == 0 then (s, v, h, .err .EINVAL) else
